@@ -27,7 +27,14 @@ import (
 	"verif/shrink"
 )
 
-const verifDir = "/verif"
+// verifDir is the directory the driver was started in (./check changes into
+// its own directory first): /verif, or a snapshot of it.
+var verifDir = func() string {
+	if d, err := os.Getwd(); err == nil {
+		return d
+	}
+	return "/verif"
+}()
 
 func repoDir() string {
 	if d := os.Getenv("VERIF_REPO"); d != "" {
